@@ -80,6 +80,7 @@ class Ctx:
         self.decisions: List[bool] = []
         self.pending: List[List[bool]] = []
         self.pc: List[z3.BoolRef] = []
+        self.pc_quant: List[bool] = []
         self.solver = z3.Solver()
         self.solver.set("timeout", branch_timeout_ms)
         self.counter = 0
@@ -111,6 +112,7 @@ class Ctx:
     # -- path condition -------------------------------------------------------------------
     def _add(self, t):
         self.pc.append(t)
+        self.pc_quant.append(has_quant(t))
         self.solver.add(t)
 
     def _feasible(self, t, timeout_ms=None) -> Optional[bool]:
@@ -203,6 +205,22 @@ class Ctx:
 # ----------------------------------------------------------------------------------------------
 # term helpers
 # ----------------------------------------------------------------------------------------------
+
+
+def has_quant(t) -> bool:
+    """does the term contain a quantifier or a lambda?"""
+    seen = set()
+    stack = [t]
+    while stack:
+        x = stack.pop()
+        i = x.get_id()
+        if i in seen:
+            continue
+        seen.add(i)
+        if z3.is_quantifier(x):
+            return True
+        stack.extend(x.children())
+    return False
 
 
 def real_val(x) -> z3.ArithRef:
